@@ -33,13 +33,13 @@ structure SInv (cfg : Cfg) (x : Src) : Prop where
     (x.started = false → x.deque = [] ∧ x.accepted = [] ∧ x.delivered = [])
   blk : ∀ r ∈ x.results, r.2.1 = .blocking → r.2.2.2 ≠ .refusedFull
   /-- conflating: at most one merged state pending, the latest accepted; deliveries are a subsequence -/
-  confl : cfg.policy = .conflating →
+  confl : cfg.policy = .conflating → isDict cfg = false →
     (x.deque = [] ∨ ∃ y, x.deque = [y] ∧ x.accepted.getLast? = some y) ∧
     (flat x.delivered ++ x.deque).Sublist x.accepted
 
 theorem sinv_init (cfg : Cfg) : SInv cfg {} :=
   ⟨fun _ => ⟨[], by simp [flat], fun _ => rfl⟩, fun _ _ => by simp, by simp, by simp,
-   fun _ => ⟨Or.inl rfl, by simp [flat]⟩⟩
+   fun _ _ => ⟨Or.inl rfl, by simp [flat]⟩⟩
 
 theorem sinv_repoint {cfg : Cfg} {x : Src} (h : SInv cfg x) (i : Nat) (pc : PPc)
     (res : List (Nat × SendKind × Nat × Outcome))
@@ -98,12 +98,32 @@ theorem sinv_accept {cfg : Cfg} {x : Src} (h : SInv cfg x) (i : Nat) (k : SendKi
     intro hs
     have := l1 hacc
     rw [hs] at this; simp at this
-  · intro hp
+  · intro hp hnd
     simp only [hp]
     refine ⟨Or.inr ⟨(i, v), rfl, by simp⟩, ?_⟩
     have : (flat x.delivered).Sublist x.accepted :=
-      List.Sublist.trans (List.sublist_append_left _ _) (h.confl hp).2
+      List.Sublist.trans (List.sublist_append_left _ _) (h.confl hp hnd).2
     exact List.Sublist.append this (List.Sublist.refl _)
+
+theorem isDict_conflating {cfg : Cfg} (h : isDict cfg = true) : cfg.policy = .conflating := by
+  unfold isDict at h
+  split at h
+  · assumption
+  · simp at h
+
+/-- the collection-conflating admission keeps the (scalar) per-source invariant: it only touches
+    the pending marker, of a source that is accepting -/
+theorem sinv_acceptD {cfg : Cfg} {x : Src} (h : SInv cfg x) (i : Nat) (k : SendKind)
+    (hacc : x.accepting = true) (hd : isDict cfg = true) : SInv cfg (x.acceptD i k) := by
+  have hp := isDict_conflating hd
+  unfold Src.acceptD
+  refine ⟨fun hn => absurd hp hn, fun hn => absurd hp hn, ?_, h.blk, ?_⟩
+  · obtain ⟨l1, l2, l3⟩ := h.life
+    refine ⟨l1, l2, ?_⟩
+    intro hs
+    have := l1 hacc
+    rw [hs] at this; simp at this
+  · intro _ hnd; rw [hd] at hnd; simp at hnd
 
 /-- split a local step hypothesis into its branches, with the results substituted -/
 macro "lstep_cases " hs:ident : tactic => `(tactic| (
@@ -117,6 +137,10 @@ macro "lstep_cases " hs:ident : tactic => `(tactic| (
 /-- the per-source invariant is preserved by every source-local step -/
 theorem lstep_sinv {cfg : Cfg} {sr : Bool} {x x' : Src} {m : Bool} {l : SLabel} (h : SInv cfg x)
     (hs : lstep cfg sr x l = some (x', m)) : SInv cfg x' := by
+  have hpay : ∀ (i : Nat) (pc : PPc) (f : Nat → Delta), SInv cfg { x with pcs := upd x.pcs i pc, pay := f } := by
+    intro i pc f
+    have := sinv_setpc h i pc
+    exact ⟨this.pre, this.cap, this.life, this.blk, this.confl⟩
   cases l with
   | start =>
     lstep_cases hs
@@ -124,31 +148,31 @@ theorem lstep_sinv {cfg : Cfg} {sr : Bool} {x x' : Src} {m : Bool} {l : SLabel} 
     simp only [Bool.not_eq_true] at hst
     obtain ⟨d1, d2, d3⟩ := h.life.2.2 hst
     exact ⟨fun _ => ⟨[], by simp [d2, d3, flat], fun _ => rfl⟩, fun _ _ => by simp, by simp, h.blk,
-      fun _ => ⟨Or.inl rfl, by simp [d2, d3, flat]⟩⟩
+      fun _ _ => ⟨Or.inl rfl, by simp [d2, d3, flat]⟩⟩
   | enter i k v =>
     lstep_cases hs
     · exact sinv_refuse h i k v _ (by simp)
     · exact sinv_setpc h i _
+  | enterD i k d =>
+    lstep_cases hs
+    · exact sinv_refuse h i k 0 _ (by simp)
+    · exact hpay i _ _
   | check i =>
     lstep_cases hs
     · exact sinv_refuse h i _ _ _ (by simp)
     · exact sinv_setpc h i _
   | admitQ i =>
-    lstep_cases hs
-    · exact sinv_refuse h i _ _ _ (by simp)
-    · exact sinv_refuse h i _ _ _ (by simp)
-    · rename_i hacc hfull
-      exact sinv_accept h i _ _ (by simpa using hacc) (by simpa using hfull)
-    · exact sinv_refuse h i _ _ _ (by simp)
-    · exact sinv_setpc h i _
-    · rename_i hacc hfull
-      exact sinv_accept h i _ _ (by simpa using hacc) (by simpa using hfull)
+    lstep_cases hs <;> first
+      | exact sinv_refuse h i _ _ _ (by simp)
+      | exact sinv_setpc h i _
+      | exact sinv_acceptD h i _ (by simp_all) (by simp_all)
+      | exact sinv_accept h i _ _ (by simp_all) (by simp_all)
   | wake i =>
-    lstep_cases hs
-    · exact sinv_refuse h i _ _ _ (by simp)
-    · exact h
-    · rename_i hacc hfull
-      exact sinv_accept h i _ _ (by simpa using hacc) (by simpa using hfull)
+    lstep_cases hs <;> first
+      | exact sinv_refuse h i _ _ _ (by simp)
+      | exact h
+      | exact sinv_acceptD h i _ (by simp_all) (by simp_all)
+      | exact sinv_accept h i _ _ (by simp_all) (by simp_all)
   | mark i =>
     lstep_cases hs
     exact sinv_repoint h i .idle _ (by simp)
@@ -170,16 +194,16 @@ theorem lstep_sinv {cfg : Cfg} {sr : Bool} {x x' : Src} {m : Bool} {l : SLabel} 
     · intro hst
       have := l1 hcond.2
       rw [hst] at this; simp at this
-    · intro hp
+    · intro hp hnd
       refine ⟨Or.inl rfl, ?_⟩
       simp only [List.append_nil]
-      exact List.Sublist.trans (List.sublist_append_left _ _) (h.confl hp).2
+      exact List.Sublist.trans (List.sublist_append_left _ _) (h.confl hp hnd).2
 
 /-- what a source-local step never touches, and how it moves the ghost history -/
 theorem lstep_frame {cfg : Cfg} {sr : Bool} {x x' : Src} {m : Bool} {l : SLabel}
     (hs : lstep cfg sr x l = some (x', m)) :
     x'.delivered = x.delivered ∧ (∃ t, x'.accepted = x.accepted ++ t) := by
-  cases l <;> lstep_cases hs <;> simp [Src.refuse, Src.accept]
+  cases l <;> lstep_cases hs <;> simp [Src.refuse, Src.accept, Src.acceptD]
 
 /-- the wake-up bookkeeping of a source-local step: a due mark disappears only by being performed
     (`m = true`), and a queue that becomes non-empty leaves a due mark behind -/
@@ -200,9 +224,26 @@ theorem lstep_wake {cfg : Cfg} {sr : Bool} {x x' : Src} {m : Bool} {l : SLabel}
     · by_cases he : x.deque = []
       · right; exact ⟨i, k, v, by simp [Src.accept, upd_same, he]⟩
       · exact Or.inl he
+  have accD : ∀ (i : Nat) (k : SendKind), (∀ k v, x.pcs i ≠ .admitted k v true) →
+      ((x.markDue → (x.acceptD i k).markDue) ∧
+       ((x.acceptD i k).deque ≠ [] → x.deque ≠ [] ∨ (x.acceptD i k).markDue)) := by
+    intro i k hold
+    refine ⟨fun hmd => ?_, fun hne => ?_⟩
+    · exact repoint i _ hold hmd
+    · by_cases he : x.deque = []
+      · right
+        refine ⟨i, k, 0, ?_⟩
+        simp only [Src.acceptD, he, List.isEmpty_nil, Bool.not_true, Bool.false_eq_true, if_false] at hne ⊢
+        cases hr : (applyDelta x.acc (x.pay i)).2 with
+        | true => simp [upd_same]
+        | false => simp [hr] at hne
+      · exact Or.inl he
   cases l with
   | start => lstep_cases hs; exact ⟨Or.inr id, by simp⟩
   | enter i k v =>
+    lstep_cases hs <;>
+      exact ⟨Or.inr (repoint i _ (by intro k v hh; simp_all)), fun h => Or.inl h⟩
+  | enterD i k d =>
     lstep_cases hs <;>
       exact ⟨Or.inr (repoint i _ (by intro k v hh; simp_all)), fun h => Or.inl h⟩
   | check i =>
@@ -213,12 +254,14 @@ theorem lstep_wake {cfg : Cfg} {sr : Bool} {x x' : Src} {m : Bool} {l : SLabel}
       first
       | exact ⟨Or.inr (repoint i _ (by intro k v hh; simp_all)), fun h => Or.inl h⟩
       | exact ⟨Or.inr (acc i _ _ (by intro k v hh; simp_all)).1, (acc i _ _ (by intro k v hh; simp_all)).2⟩
+      | exact ⟨Or.inr (accD i _ (by intro k v hh; simp_all)).1, (accD i _ (by intro k v hh; simp_all)).2⟩
   | wake i =>
     lstep_cases hs <;>
       first
       | exact ⟨Or.inr id, fun h => Or.inl h⟩
       | exact ⟨Or.inr (repoint i _ (by intro k v hh; simp_all)), fun h => Or.inl h⟩
       | exact ⟨Or.inr (acc i _ _ (by intro k v hh; simp_all)).1, (acc i _ _ (by intro k v hh; simp_all)).2⟩
+      | exact ⟨Or.inr (accD i _ (by intro k v hh; simp_all)).1, (accD i _ (by intro k v hh; simp_all)).2⟩
   | mark i =>
     lstep_cases hs
     rename_i k v wk hpc
@@ -233,9 +276,10 @@ theorem lstep_wake {cfg : Cfg} {sr : Bool} {x x' : Src} {m : Bool} {l : SLabel}
 theorem popL_frame (cfg : Cfg) (t : Nat) (x : Src) :
     (popL cfg t x).1.started = x.started ∧ (popL cfg t x).1.accepting = x.accepting ∧
     (popL cfg t x).1.closing = x.closing ∧ (popL cfg t x).1.pcs = x.pcs ∧
-    (popL cfg t x).1.accepted = x.accepted ∧ (popL cfg t x).1.results = x.results := by
+    (popL cfg t x).1.accepted = x.accepted ∧ (popL cfg t x).1.results = x.results ∧
+    (popL cfg t x).1.caccepted = x.caccepted ∧ (popL cfg t x).1.pay = x.pay := by
   unfold popL
-  split <;> simp
+  split <;> (try split) <;> simp
 
 /-- the shape of a pop: nothing (empty queue), or one entry stamped `t` appended to `delivered` -/
 theorem popL_delivered (cfg : Cfg) (t : Nat) (x : Src) :
@@ -249,9 +293,10 @@ theorem popL_delivered (cfg : Cfg) (t : Nat) (x : Src) :
     right; exact ⟨[v], by simp, rfl, by simp [hd], fun _ => ⟨v, rfl⟩⟩
   · rename_i v rest hd hnq
     right
-    refine ⟨v :: rest, by simp, rfl, by simp [hd], ?_⟩
-    intro hq
-    exact absurd hq (by intro hq; exact hnq hq)
+    split <;>
+    · refine ⟨v :: rest, by simp, rfl, by simp [hd], ?_⟩
+      intro hq
+      exact absurd hq (by intro hq; exact hnq hq)
 
 /-- `more_pending` is reported whenever values remain -/
 theorem popL_more (cfg : Cfg) (t : Nat) (x : Src) : (popL cfg t x).1.deque ≠ [] → (popL cfg t x).2 = true := by
@@ -263,7 +308,7 @@ theorem popL_more (cfg : Cfg) (t : Nat) (x : Src) : (popL cfg t x).1.deque ≠ [
     cases rest with
     | nil => exact absurd rfl h
     | cons _ _ => simp
-  · intro h; exact absurd rfl h
+  · split <;> (intro h; exact absurd rfl h)
 
 theorem popL_sinv {cfg : Cfg} {x : Src} (t : Nat) (h : SInv cfg x) : SInv cfg (popL cfg t x).1 := by
   unfold popL
@@ -286,22 +331,34 @@ theorem popL_sinv {cfg : Cfg} {x : Src} (t : Nat) (h : SInv cfg x) : SInv cfg (p
       rw [hd] at this; simp at this
     · intro hp; rw [hpol] at hp; simp at hp
   · rename_i v rest hd hnq
-    refine ⟨?_, fun _ _ => by simp, ?_, h.blk, ?_⟩
-    · intro hp
-      obtain ⟨dr, h1, h2⟩ := h.pre hp
-      refine ⟨dr, ?_, h2⟩
-      simp only [flat_append, flat_single]
-      rw [h1, hd]; simp
-    · obtain ⟨l1, l2, l3⟩ := h.life
-      refine ⟨l1, l2, ?_⟩
-      intro hst
-      have := (l3 hst).1
-      rw [hd] at this; simp at this
-    · intro hp
-      refine ⟨Or.inl rfl, ?_⟩
-      simp only [flat_append, flat_single, List.append_nil]
-      have := (h.confl hp).2
-      rw [hd] at this; exact this
+    split
+    · -- the collection accumulator is taken
+      rename_i hdict
+      have hp := isDict_conflating hdict
+      refine ⟨fun hn => absurd hp hn, fun _ _ => by simp, ?_, h.blk, ?_⟩
+      · obtain ⟨l1, l2, l3⟩ := h.life
+        refine ⟨l1, l2, ?_⟩
+        intro hst
+        have := (l3 hst).1
+        rw [hd] at this; simp at this
+      · intro _ hnd; rw [hdict] at hnd; simp at hnd
+    · rename_i hnd'
+      refine ⟨?_, fun _ _ => by simp, ?_, h.blk, ?_⟩
+      · intro hp
+        obtain ⟨dr, h1, h2⟩ := h.pre hp
+        refine ⟨dr, ?_, h2⟩
+        simp only [flat_append, flat_single]
+        rw [h1, hd]; simp
+      · obtain ⟨l1, l2, l3⟩ := h.life
+        refine ⟨l1, l2, ?_⟩
+        intro hst
+        have := (l3 hst).1
+        rw [hd] at this; simp at this
+      · intro hp hnd
+        refine ⟨Or.inl rfl, ?_⟩
+        simp only [flat_append, flat_single, List.append_nil]
+        have := (h.confl hp hnd).2
+        rw [hd] at this; exact this
 
 /-! ### the global invariant -/
 
@@ -628,13 +685,13 @@ theorem lstep_keeps {cfg : Cfg} {sr : Bool} {x x' : Src} {m : Bool} {l : SLabel}
     (x.started = true → x'.accepting = x.accepting) ∧
     (x.started = true → x.deque ≠ [] → x'.deque ≠ []) := by
   cases l <;> simp [isStopSLabel] at hl <;> lstep_cases hs <;>
-    simp [Src.refuse, Src.accept] <;> (try split) <;> simp_all
+    simp [Src.refuse, Src.accept, Src.acceptD] <;> (try split) <;> simp_all
 
 theorem lstep_pcs_admitted {cfg : Cfg} {sr : Bool} {x x' : Src} {m : Bool} {l : SLabel}
     (hs : lstep cfg sr x l = some (x', m)) (i : Nat) (k : SendKind) (v : Nat) (w : Bool)
     (hl : l ≠ .mark i) (hp : x.pcs i = .admitted k v w) : x'.pcs i = .admitted k v w := by
   cases l <;> lstep_cases hs <;>
-    (try simp [Src.refuse, Src.accept, upd]) <;> (try split) <;> (try simp_all) <;>
+    (try simp [Src.refuse, Src.accept, Src.acceptD, upd]) <;> (try split) <;> (try simp_all) <;>
     (try (intro h; subst h; simp_all)) <;> (try assumption) <;> (try split) <;> (try simp_all)
 
 theorem lstep_mark {cfg : Cfg} {sr : Bool} {x x' : Src} {m : Bool} {i : Nat} {k : SendKind} {v : Nat}
@@ -648,13 +705,13 @@ theorem lstep_running {cfg : Cfg} {sr : Bool} {x x' : Src} {m : Bool} {l : SLabe
     (h : x.started = true → x.closing = false → x.accepting = true) :
     x'.started = true → x'.closing = false → x'.accepting = true := by
   cases l <;> lstep_cases hs <;>
-    (try simp [Src.refuse, Src.accept]) <;> (try split) <;> (try simp_all)
+    (try simp [Src.refuse, Src.accept, Src.acceptD]) <;> (try split) <;> (try simp_all)
 
 /-- once a source's policy stopped, no source-local step accepts anything -/
 theorem lstep_after_stop {cfg : Cfg} {sr : Bool} {x x' : Src} {m : Bool} {l : SLabel}
     (hs : lstep cfg sr x l = some (x', m)) (hst : x.started = true) (hna : x.accepting = false) :
     x'.accepted = x.accepted ∧ x'.started = true ∧ x'.accepting = false := by
-  cases l <;> lstep_cases hs <;> simp_all [Src.refuse]
+  cases l <;> lstep_cases hs <;> simp_all [Src.refuse, Src.acceptD]
 
 /-- what each step does to the delivered history of source `k` -/
 theorem step_delivered {sys : Sys} {s s' : St} {l : Label} (hs : step sys s l = some s') (k : Nat) :
@@ -939,24 +996,218 @@ theorem running_accepting {sys : Sys} {s : St} (h : Reach sys s) (k : Nat) :
       rw [h]; exact ih
     | reqStop => simp only [step, Option.some.injEq] at hs; subst hs; exact ih
 
+/-! ### the collection-conflating invariant -/
+
+theorem foldWindow_nil : foldWindow [] = (none, false) := rfl
+
+theorem foldWindow_snoc (w : List Delta) (d : Delta) :
+    foldWindow (w ++ [d]) =
+      ((applyDelta (foldWindow w).1 d).1, (foldWindow w).2 || (applyDelta (foldWindow w).1 d).2) := by
+  simp [foldWindow, List.foldl_append]
+
+/-- invariant of a collection-conflating source (`isDict`): the accumulator is the fold of the
+    window's accepted deltas, `pending` (the marker deque) holds exactly when one of them had effect,
+    every delivered value is the fold of its window, and the accepted deltas are exactly those of the
+    delivered windows followed by the current window (plus what a stop dropped) -/
+structure DInv (x : Src) : Prop where
+  acc : x.acc = (foldWindow x.window).1
+  pend : x.deque ≠ [] ↔ (foldWindow x.window).2 = true
+  hist : ∀ e ∈ x.cdelivered, e.2.2 = (foldWindow e.2.1).1.getD [] ∧ (foldWindow e.2.1).2 = true
+  cons : ∃ dropped, x.caccepted.map (·.2) = (x.cdelivered.map (·.2.1)).flatten ++ x.window ++ dropped ∧
+    (x.accepting = true → dropped = [])
+  count : x.delivered.length = x.cdelivered.length
+  fresh : x.started = false → x.window = [] ∧ x.caccepted = [] ∧ x.cdelivered = [] ∧ x.acc = none ∧ x.delivered = []
+
+theorem dinv_init : DInv {} :=
+  ⟨rfl, by simp [foldWindow], by simp, ⟨[], by simp, fun _ => rfl⟩, rfl, fun _ => ⟨rfl, rfl, rfl, rfl, rfl⟩⟩
+
+/-- fields a step may change without touching the collection state -/
+theorem dinv_same {x y : Src} (h : DInv x) (e1 : y.acc = x.acc) (e2 : y.window = x.window) (e3 : y.deque = x.deque)
+    (e4 : y.cdelivered = x.cdelivered) (e5 : y.caccepted = x.caccepted) (e6 : y.accepting = x.accepting)
+    (e7 : y.delivered = x.delivered) (e8 : y.started = x.started) : DInv y := by
+  refine ⟨?_, ?_, ?_, ?_, ?_, ?_⟩
+  · rw [e1, e2]; exact h.acc
+  · rw [e2, e3]; exact h.pend
+  · rw [e4]; exact h.hist
+  · rw [e4, e5, e2, e6]; exact h.cons
+  · rw [e7, e4]; exact h.count
+  · rw [e8, e2, e5, e4, e1, e7]; exact h.fresh
+
+theorem dinv_acceptD {x : Src} (h : DInv x) (i : Nat) (k : SendKind) (hacc : x.accepting = true)
+    (hst : x.started = true) : DInv (x.acceptD i k) := by
+  unfold Src.acceptD
+  refine ⟨?_, ?_, h.hist, ?_, h.count, ?_⟩
+  · simp only [foldWindow_snoc]; rw [h.acc]
+  · simp only [foldWindow_snoc]
+    rw [← h.acc]
+    by_cases hd : x.deque = []
+    · have hf : (foldWindow x.window).2 = false := by
+        cases hfw : (foldWindow x.window).2 with
+        | false => rfl
+        | true => exact absurd hd (h.pend.mpr hfw)
+      simp only [hd, List.isEmpty_nil, Bool.not_true, Bool.false_eq_true, if_false, hf, Bool.false_or]
+      cases (applyDelta x.acc (x.pay i)).2 <;> simp
+    · have hf : (foldWindow x.window).2 = true := h.pend.mp hd
+      have he : x.deque.isEmpty = false := by
+        cases hx : x.deque with
+        | nil => exact absurd hx hd
+        | cons _ _ => rfl
+      simp only [he, Bool.not_false, if_true, hf, Bool.true_or]
+      exact ⟨fun _ => trivial, fun _ => hd⟩
+  · obtain ⟨dr, h1, h2⟩ := h.cons
+    have := h2 hacc
+    subst this
+    refine ⟨[], ?_, fun _ => rfl⟩
+    simp only [List.map_append, List.map_cons, List.map_nil, h1, List.append_nil, List.append_assoc]
+  · intro hs; rw [hst] at hs; simp at hs
+
+/-- the collection-conflating invariant is preserved by every source-local step of an `isDict` source -/
+theorem lstep_dinv {cfg : Cfg} {sr : Bool} {x x' : Src} {m : Bool} {l : SLabel} (hd : isDict cfg = true)
+    (hsi : SInv cfg x) (h : DInv x) (hs : lstep cfg sr x l = some (x', m)) : DInv x' := by
+  have hnd : ¬ (isDict cfg = false) := by rw [hd]; simp
+  cases l with
+  | start =>
+    lstep_cases hs
+    rename_i hst
+    simp only [Bool.not_eq_true] at hst
+    obtain ⟨f1, f2, f3, f4, f5⟩ := h.fresh hst
+    exact ⟨rfl, by simp [foldWindow], by simp [f3], ⟨[], by simp [f2, f3], fun _ => rfl⟩, by simp [f3, f5],
+      fun hh => by simp at hh⟩
+  | enter i k v =>
+    lstep_cases hs <;> simp_all
+  | enterD i k d =>
+    lstep_cases hs <;> exact dinv_same h rfl rfl rfl rfl rfl rfl rfl rfl
+  | check i =>
+    lstep_cases hs <;> exact dinv_same h rfl rfl rfl rfl rfl rfl rfl rfl
+  | admitQ i =>
+    lstep_cases hs <;> first
+      | exact dinv_same h rfl rfl rfl rfl rfl rfl rfl rfl
+      | exact dinv_acceptD h i _ (by simp_all) (hsi.life.1 (by simp_all))
+      | (exfalso; simp_all)
+  | wake i =>
+    lstep_cases hs <;> first
+      | exact dinv_same h rfl rfl rfl rfl rfl rfl rfl rfl
+      | exact dinv_acceptD h i _ (by simp_all) (hsi.life.1 (by simp_all))
+      | (exfalso; simp_all)
+  | mark i =>
+    lstep_cases hs; exact dinv_same h rfl rfl rfl rfl rfl rfl rfl rfl
+  | closeBegin =>
+    lstep_cases hs; exact dinv_same h rfl rfl rfl rfl rfl rfl rfl rfl
+  | queueStop =>
+    lstep_cases hs
+    rename_i hcond
+    simp only [Bool.and_eq_true] at hcond
+    refine ⟨rfl, by simp [foldWindow], h.hist, ?_, h.count, ?_⟩
+    · obtain ⟨dr, h1, _⟩ := h.cons
+      exact ⟨x.window ++ dr, by simp [h1], by simp⟩
+    · intro hst
+      have := hsi.life.1 hcond.2
+      simp only at hst
+      rw [hst] at this; simp at this
+
+theorem popL_dinv {cfg : Cfg} {x : Src} (t : Nat) (hd : isDict cfg = true) (h : DInv x) :
+    DInv (popL cfg t x).1 := by
+  have hp := isDict_conflating hd
+  unfold popL
+  split
+  · exact h
+  · rename_i hpol _; rw [hpol] at hp; simp at hp
+  · rename_i v rest hdq _
+    simp only [hd, if_true]
+    refine ⟨rfl, by simp [foldWindow], ?_, ?_, ?_, ?_⟩
+    · intro e he
+      simp only [List.mem_append, List.mem_singleton] at he
+      rcases he with he | rfl
+      · exact h.hist e he
+      · exact ⟨by simp only; rw [h.acc], h.pend.mp (by rw [hdq]; simp)⟩
+    · obtain ⟨dr, h1, h2⟩ := h.cons
+      exact ⟨dr, by simp [h1], h2⟩
+    · simp [h.count]
+    · intro hst
+      have := (h.fresh hst).2.2.2.2
+      simp only at hst
+      exfalso
+      -- a source that is not started has delivered nothing and holds nothing pending
+      have hw := (h.fresh hst).1
+      have := h.pend.mp (by rw [hdq]; simp)
+      rw [hw] at this; simp [foldWindow] at this
+
+/-- what a pop of a pending collection-conflating source hands to the graph: the fold of its window -/
+theorem popL_dict_delivers {cfg : Cfg} {x : Src} (t : Nat) (hd : isDict cfg = true) (h : DInv x)
+    (hp : x.deque ≠ []) :
+    (popL cfg t x).1.cdelivered = x.cdelivered ++ [(t, x.window, (foldWindow x.window).1.getD [])] ∧
+    (popL cfg t x).1.window = [] ∧ (popL cfg t x).1.deque = [] ∧ (popL cfg t x).1.acc = none := by
+  have hpol := isDict_conflating hd
+  unfold popL
+  split
+  · rename_i he; exact absurd he hp
+  · rename_i hq _; rw [hq] at hpol; simp at hpol
+  · simp only [hd, if_true]
+    exact ⟨by rw [h.acc], trivial, trivial, trivial⟩
+
+/-- … and a pop that finds nothing pending hands nothing over and keeps the window -/
+theorem popL_dict_idle {cfg : Cfg} {x : Src} (t : Nat) (hp : x.deque = []) :
+    (popL cfg t x).1 = x := by
+  unfold popL
+  split
+  · rfl
+  · rename_i hq; rw [hp] at hq; simp at hq
+  · rename_i hq _; rw [hp] at hq; simp at hq
+
 /-! ### a producer that never enters a send stays idle (used for concrete witnesses) -/
 
+/-- the label is producer `i` entering a send -/
+def SLabel.entersBy (i : Nat) : SLabel → Bool
+  | .enter i' _ _ => i' == i
+  | .enterD i' _ _ => i' == i
+  | _ => false
+
+/-- the label is producer `i` of source `k` entering a send -/
+def Label.entersBy (k i : Nat) : Label → Bool
+  | .src k' l => k' == k && l.entersBy i
+  | _ => false
+
 theorem lstep_pcs_idle {cfg : Cfg} {sr : Bool} {x x' : Src} {m : Bool} {l : SLabel}
-    (hs : lstep cfg sr x l = some (x', m)) (i : Nat) (hl : ∀ kd v, l ≠ .enter i kd v)
+    (hs : lstep cfg sr x l = some (x', m)) (i : Nat) (hl : l.entersBy i = false)
     (hp : x.pcs i = .idle) : x'.pcs i = .idle := by
-  cases l <;> lstep_cases hs <;>
-    (try simp [Src.refuse, Src.accept, upd]) <;> (try split) <;> (try simp_all) <;>
+  cases l <;> simp [SLabel.entersBy] at hl <;> lstep_cases hs <;>
+    (try simp [Src.refuse, Src.accept, Src.acceptD, upd]) <;> (try split) <;> (try simp_all) <;>
     (try (intro h; subst h; simp_all)) <;> (try assumption) <;> (try split) <;> (try simp_all)
 
+theorem lstepS51_pcs_idle {cfg : Cfg} {sr : Bool} {x x' : Src} {m : Bool} {l : SLabel}
+    (hs : lstepS51 cfg sr x l = some (x', m)) (i : Nat) (hl : l.entersBy i = false)
+    (hp : x.pcs i = .idle) : x'.pcs i = .idle := by
+  cases l with
+  | admitQ j =>
+    simp only [lstepS51] at hs
+    split at hs
+    · rename_i kd v hpc
+      split at hs
+      · simp only [Option.some.injEq, Prod.mk.injEq] at hs
+        obtain ⟨rfl, _⟩ := hs
+        by_cases hij : i = j
+        · subst hij; rw [hp] at hpc; simp at hpc
+        · simp [Src.acceptDSeeded, upd, hij]; exact hp
+      · exact lstep_pcs_idle hs i hl hp
+    · simp at hs
+  | start => exact lstep_pcs_idle (cfg := cfg) (sr := sr) (l := .start) hs i hl hp
+  | enter j kd v => exact lstep_pcs_idle (cfg := cfg) (sr := sr) (l := .enter j kd v) hs i hl hp
+  | enterD j kd d => exact lstep_pcs_idle (cfg := cfg) (sr := sr) (l := .enterD j kd d) hs i hl hp
+  | check j => exact lstep_pcs_idle (cfg := cfg) (sr := sr) (l := .check j) hs i hl hp
+  | wake j => exact lstep_pcs_idle (cfg := cfg) (sr := sr) (l := .wake j) hs i hl hp
+  | mark j => exact lstep_pcs_idle (cfg := cfg) (sr := sr) (l := .mark j) hs i hl hp
+  | closeBegin => exact lstep_pcs_idle (cfg := cfg) (sr := sr) (l := .closeBegin) hs i hl hp
+  | queueStop => exact lstep_pcs_idle (cfg := cfg) (sr := sr) (l := .queueStop) hs i hl hp
+
 theorem step_pcs_idle {sys : Sys} {s s' : St} {l : Label} (hs : step sys s l = some s')
-    (k i : Nat) (hl : ∀ kd v, l ≠ .src k (.enter i kd v))
+    (k i : Nat) (hl : l.entersBy k i = false)
     (hp : (s.src k).pcs i = .idle) : (s'.src k).pcs i = .idle := by
   cases l with
   | src j l =>
     obtain ⟨x, m, hls, _, _, e1, e2, _⟩ := step_src hs
     by_cases hk : k = j
     · subst hk; rw [e1]
-      exact lstep_pcs_idle hls i (by intro kd v h; subst h; exact hl kd v rfl) hp
+      exact lstep_pcs_idle hls i (by simpa [Label.entersBy] using hl) hp
     · rw [e2 k hk]; exact hp
   | beginCycle dt =>
     obtain ⟨_, h, _⟩ := (step_cpc hs).2.2.2 ⟨dt, rfl⟩
@@ -977,7 +1228,7 @@ theorem step_pcs_idle {sys : Sys} {s s' : St} {l : Label} (hs : step sys s l = s
   | reqStop => simp only [step, Option.some.injEq] at hs; subst hs; exact hp
 
 theorem stepPerSource_pcs_idle {sys : Sys} {s s' : St} {l : Label} (hs : stepPerSource sys s l = some s')
-    (k i : Nat) (hl : ∀ kd v, l ≠ .src k (.enter i kd v))
+    (k i : Nat) (hl : l.entersBy k i = false)
     (hp : (s.src k).pcs i = .idle) : (s'.src k).pcs i = .idle := by
   cases l with
   | pop =>
@@ -992,7 +1243,33 @@ theorem stepPerSource_pcs_idle {sys : Sys} {s s' : St} {l : Label} (hs : stepPer
   | rearm => exact step_pcs_idle (l := .rearm) hs k i hl hp
   | reqStop => exact step_pcs_idle (sys := sys) (l := .reqStop) hs k i hl hp
 
-theorem run_pcs_idle (sys : Sys) (k i : Nat) (ls : List Label) (hl : ∀ l ∈ ls, ∀ kd v, l ≠ .src k (.enter i kd v))
+theorem stepS51_pcs_idle {sys : Sys} {s s' : St} {l : Label} (hs : stepS51 sys s l = some s')
+    (k i : Nat) (hl : l.entersBy k i = false)
+    (hp : (s.src k).pcs i = .idle) : (s'.src k).pcs i = .idle := by
+  cases l with
+  | src j l =>
+    simp only [stepS51] at hs
+    split at hs
+    · split at hs
+      · simp at hs
+      · split at hs
+        · rename_i x m hl'
+          simp only [Option.some.injEq] at hs; subst hs
+          have hsrc : (if m = true then markFlag (setSrc s j x) else setSrc s j x).src = (setSrc s j x).src := by
+            cases m <;> simp [(markFlag_fields (setSrc s j x)).1]
+          rw [hsrc]
+          by_cases hk : k = j
+          · subst hk; rw [setSrc_same]
+            exact lstepS51_pcs_idle hl' i (by simpa [Label.entersBy] using hl) hp
+          · rw [setSrc_other _ _ _ _ hk]; exact hp
+        · simp at hs
+    · simp at hs
+  | beginCycle dt => exact step_pcs_idle (l := .beginCycle dt) hs k i hl hp
+  | pop => exact step_pcs_idle (sys := sys) (l := .pop) hs k i hl hp
+  | rearm => exact step_pcs_idle (sys := sys) (l := .rearm) hs k i hl hp
+  | reqStop => exact step_pcs_idle (sys := sys) (l := .reqStop) hs k i hl hp
+
+theorem run_pcs_idle (sys : Sys) (k i : Nat) (ls : List Label) (hl : ∀ l ∈ ls, l.entersBy k i = false)
     (s : St) (hp : (s.src k).pcs i = .idle) : ((runLabels sys s ls).src k).pcs i = .idle := by
   induction ls generalizing s with
   | nil => exact hp
@@ -1005,7 +1282,7 @@ theorem run_pcs_idle (sys : Sys) (k i : Nat) (ls : List Label) (hl : ∀ l ∈ l
         (step_pcs_idle hs k i (hl l (List.mem_cons_self ..)) hp)
 
 theorem runPerSource_pcs_idle (sys : Sys) (k i : Nat) (ls : List Label)
-    (hl : ∀ l ∈ ls, ∀ kd v, l ≠ .src k (.enter i kd v))
+    (hl : ∀ l ∈ ls, l.entersBy k i = false)
     (s : St) (hp : (s.src k).pcs i = .idle) : ((runPerSource sys s ls).src k).pcs i = .idle := by
   induction ls generalizing s with
   | nil => exact hp
@@ -1016,5 +1293,18 @@ theorem runPerSource_pcs_idle (sys : Sys) (k i : Nat) (ls : List Label)
     | some s' =>
       exact ih (fun l' hl' => hl l' (List.mem_cons_of_mem _ hl')) s'
         (stepPerSource_pcs_idle hs k i (hl l (List.mem_cons_self ..)) hp)
+
+theorem runS51_pcs_idle (sys : Sys) (k i : Nat) (ls : List Label)
+    (hl : ∀ l ∈ ls, l.entersBy k i = false)
+    (s : St) (hp : (s.src k).pcs i = .idle) : ((runS51 sys s ls).src k).pcs i = .idle := by
+  induction ls generalizing s with
+  | nil => exact hp
+  | cons l ls ih =>
+    simp only [runS51]
+    cases hs : stepS51 sys s l with
+    | none => exact ih (fun l' hl' => hl l' (List.mem_cons_of_mem _ hl')) s hp
+    | some s' =>
+      exact ih (fun l' hl' => hl l' (List.mem_cons_of_mem _ hl')) s'
+        (stepS51_pcs_idle hs k i (hl l (List.mem_cons_self ..)) hp)
 
 end HgVerif.PushQueueN
